@@ -1747,6 +1747,14 @@ func TestC12Corruption(t *testing.T) {
 						fail("abort-failed", "AbortRestore: %v", err)
 					}
 				}
+				if rapid.Bool().Draw(t, "reoffer") {
+					// the next snapshot offer: state sync calls StartMultipartInsert for EVERY offered snapshot, also when
+					// a multipart insert of that version is already open (then it is a no-op)
+					if err := dst.StartMultipartInsert(f.root.Version); err != nil {
+						fail("restore-start-failed", "StartMultipartInsert for a re-offered snapshot of the same version: %v", err)
+					}
+					rec.Label("completion:reoffered")
+				}
 				if err := rs.StartRestore(ctx, meta); err != nil {
 					fail("restore-start-failed", "StartRestore after a rejected chunk: %v", err)
 				}
